@@ -372,7 +372,8 @@ def _run(ck, R, exe, quick, scratch):
     # A'. modules with channel extras (MED/HMN/FAR) and sound-effect channels reserved by xmp_start_smix: the
     #     extras loop of xmp_start_player then also covers the smix channels
     ext = [f for f in vlib.corpus_files() if re.search(r"(\.med|med\.|\.far|hmn|\.mmd)", os.path.basename(f), re.I)
-           and 200 < os.path.getsize(f) <= 200000 and not f.endswith((".data", ".txt"))]
+           and 200 < os.path.getsize(f) <= 200000 and not f.endswith((".data", ".txt"))
+           and not os.path.basename(f).startswith(("load_", "depack_"))]
     ck.rng.shuffle(ext)
     ext = ext[:4] if quick else ext
     for i, m in enumerate(ext):
